@@ -777,3 +777,50 @@ def year_windows(tier, seed, step=40, quick=None):
 def day_window(yw):
     """day numbers of the years yw=(ylo,yhi): jan 1 of ylo .. dec 31 of yhi"""
     return (jan0(yw[0]) + 1, jan0(yw[1] + 1))
+
+
+# ----------------------------------------------------------------------
+def ref_selftest(ctx):
+    """validate h/ref.h against Python's datetime for every day 1601..4095"""
+    import datetime
+    t = time.time()
+    exe = os.path.join(ctx.scratch, 'ref_selftest')
+    sh(['gcc', '-O2', '-I' + HDIR, '-o', exe, os.path.join(HDIR, 'ref_selftest.c')], check=True)
+    out = sh([exe], check=True, timeout=120).stdout
+    base = datetime.date(1601, 1, 1).toordinal() - 1
+    n = 0
+    for ln in out.splitlines():
+        f = ln.split()
+        if f[0] == 'BAD':
+            raise Broken('reference model self-test: ' + ln)
+        dn, y, m, d, wd, doy, iy, iw, wu, wm, hang, nwk, rel = map(int, f)
+        dt = datetime.date.fromordinal(base + dn)
+        iso = dt.isocalendar()
+        # first Monday-week: hang and weeks-in-year from isocalendar of Jan 4 / Dec 28
+        mon1 = datetime.date(iy, 1, 4)
+        mon1 = mon1.toordinal() - (mon1.isoweekday() - 1)
+        exp_hang = mon1 - 1 - (datetime.date(iy, 1, 1).toordinal() - 1)
+        exp_nwk = datetime.date(iy, 12, 28).isocalendar()[1]
+        ok = (dt.year, dt.month, dt.day) == (y, m, d) and dt.isoweekday() == wd and \
+            dt.timetuple().tm_yday == doy and (iso[0], iso[1]) == (iy, iw) and \
+            int(dt.strftime('%U')) == wu and int(dt.strftime('%W')) == wm and \
+            hang == exp_hang and nwk == exp_nwk and rel == 1
+        if not ok:
+            raise Broken('reference model disagrees with Python datetime at day %d: %s' % (dn, ln))
+        n += 1
+    if n != 911280:
+        raise Broken('reference model self-test covered %d days, expected 911280' % n)
+    # day-number bases
+    # the project documents LDN like its daisy count: days since the reference
+    # date 15 Oct 1582 (= day 0; the suite pins 2012-01-01 -> 156767)
+    if datetime.date(1601, 1, 1).toordinal() - datetime.date(1582, 10, 15).toordinal() != 1 + 6652 or \
+       datetime.date(2012, 1, 1).toordinal() - datetime.date(1582, 10, 15).toordinal() != 156767:
+        raise Broken('LDN base')
+    if datetime.date(1970, 1, 1).toordinal() - base != 134775:
+        raise Broken('unix base')
+    # matlab datenum(y,m,d) = python ordinal + 366
+    if datetime.date(1601, 1, 1).toordinal() + 366 != 1 + 584754:
+        raise Broken('MDN base')
+    ctx.log('reference model == Python datetime on all %d days (%.1fs)' % (n, time.time() - t))
+    return {'reference_selftest': 'h/ref.h compared with Python datetime on all 911280 days: '
+            'ymd, weekday, day of year, ISO year/week, %U, %W, hang, weeks-in-year, LDN/MDN/Unix bases'}
